@@ -271,7 +271,7 @@ def run(ctx, res):
 
     # ---- R4 ----------------------------------------------------------------------------------
     blockseek.check(ctx, res, "C03.R4s", "C03.R4")
-    res.floor("C03.R4", 5)
+    res.floor("C03.R4", 3)
 
 
     # ---- dispatch wiring --------------------------------------------------------------------------
